@@ -130,6 +130,10 @@ pub struct C13Scenario {
     /// that process and the next step starts a new one
     #[serde(default)]
     pub session: bool,
+    /// TMPDIR of the executor: "" (unset, the system default), "missing" (names a directory
+    /// that does not exist), "private" (an empty directory inside the scratch root)
+    #[serde(default)]
+    pub tmpdir: String,
     pub history: Vec<Op>,
     #[serde(default)]
     pub relations: Vec<Rel>,
@@ -387,6 +391,7 @@ pub struct HistExec {
     pub version_refs: BTreeMap<usize, JobResult>,
     pub session_mode: bool,
     pub session: Option<crate::pool::Session>,
+    pub env: BTreeMap<String, String>,
 }
 
 fn src_dir_name(layout: &Layout) -> String {
@@ -459,6 +464,7 @@ impl HistExec {
         std::fs::create_dir_all(format!("{root}/cwd")).expect("cwd dir");
         std::fs::create_dir_all(format!("{root}/elsewhere")).expect("elsewhere dir");
         write_file(&root, "outside/sentinel.txt", b"must stay as it is\n");
+        let root_for_env = root.clone();
         HistExec {
             root,
             root_name: sc_header.root_name.clone(),
@@ -480,6 +486,20 @@ impl HistExec {
             version_refs: BTreeMap::new(),
             session_mode: sc_header.session,
             session: None,
+            env: {
+                let mut e = BTreeMap::new();
+                match sc_header.tmpdir.as_str() {
+                    "missing" => {
+                        e.insert("TMPDIR".to_string(), format!("{root_for_env}/no-such-tmp"));
+                    }
+                    "private" => {
+                        std::fs::create_dir_all(format!("{root_for_env}/tmp")).expect("private tmp");
+                        e.insert("TMPDIR".to_string(), format!("{root_for_env}/tmp"));
+                    }
+                    _ => {}
+                }
+                e
+            },
         }
     }
 
@@ -640,7 +660,7 @@ impl HistExec {
         let input = serde_json::to_string(spec).unwrap();
         if self.session_mode {
             if self.session.is_none() {
-                self.session = crate::pool::Session::spawn("exec-session", &BTreeMap::new(), &format!("{}/cwd", spec.root));
+                self.session = crate::pool::Session::spawn("exec-session", &self.env, &format!("{}/cwd", spec.root));
                 self.stats.sessions_started += 1;
             }
             let reply = self.session.as_mut().and_then(|s| s.request(&input));
@@ -662,7 +682,7 @@ impl HistExec {
                 }
             }
         }
-        let out = run_exec("exec-step", &input, &BTreeMap::new(), &format!("{}/cwd", spec.root), &[]);
+        let out = run_exec("exec-step", &input, &self.env, &format!("{}/cwd", spec.root), &[]);
         // a crash record (exit 137) and a normal result are both one JSON line on stdout
         if let Some(line) = out.stdout.lines().last() {
             if let Ok(r) = serde_json::from_str::<StepResult>(line) {
